@@ -442,3 +442,51 @@ Proof.
   intros H. unfold uv_interp. rewrite v3_interp_1. destruct x2 as [[x y] z].
   unfold is_unit in H. rewrite H. cbn. rewrite sqrt_1. f_equal; [f_equal|]; field.
 Qed.
+
+(* ------------------------------------------------------------------ periodic variable with run-time history *)
+Lemma pv_run_state {T} (O : NumOps T) (s : pvar (T:=T)) ops : fst (pv_run O s ops) = pv_in_force s ops.
+Proof.
+  revert s; induction ops as [|o r IH]; intros s; cbn [pv_run pv_in_force]; [reflexivity|].
+  destruct o as [P c|x|x1 x2]; cbn [pv_step];
+    (destruct (pv_run O _ r) as [s2 outs] eqn:E; cbn [fst];
+     match goal with |- s2 = pv_in_force ?s0 r => specialize (IH s0); rewrite E in IH; exact IH end).
+Qed.
+Lemma pv_run_app {T} (O : NumOps T) (s : pvar (T:=T)) h1 h2 :
+  pv_run O s (h1 ++ h2) =
+  (fst (pv_run O (fst (pv_run O s h1)) h2), snd (pv_run O s h1) ++ snd (pv_run O (fst (pv_run O s h1)) h2)).
+Proof.
+  revert s; induction h1 as [|o r IH]; intros s; cbn [app pv_run fst snd].
+  - destruct (pv_run O s h2); reflexivity.
+  - destruct (pv_step O s o) as [s1 out]. rewrite IH.
+    destruct (pv_run O s1 r) as [s2 outs]; cbn [fst snd]. reflexivity.
+Qed.
+Lemma pv_history_wrap (s : pvar (T:=R)) h x :
+  let s' := pv_in_force s h in
+  0 < pv_P s' ->
+  exists y, snd (pv_run Rops s (h ++ [PvWrap x])) = snd (pv_run Rops s h) ++ [[y]] /\
+    pv_c s' - pv_P s' / 2 <= y < pv_c s' + pv_P s' / 2 /\ (exists n : Z, y = x - IZR n * pv_P s') /\
+    (pv_c s' - pv_P s' / 2 <= x < pv_c s' + pv_P s' / 2 -> y = x).
+Proof.
+  intros s' HP. rewrite pv_run_app. cbn [snd]. rewrite pv_run_state. fold s'.
+  cbn [pv_run pv_step snd]. eexists; split; [reflexivity|].
+  split; [apply cvc_wrap_range; exact HP|]. split; [apply cvc_wrap_equiv|apply cvc_wrap_idem; exact HP].
+Qed.
+Lemma pdiff_shift2 P x1 x2 (n m : Z) : 0 < P ->
+  pdiff Rops P ((x1 + IZR n * P) - (x2 + IZR m * P)) = pdiff Rops P (x1 - x2).
+Proof.
+  intros HP.
+  replace (x1 + IZR n * P - (x2 + IZR m * P)) with ((x1 - x2) + IZR (n - m) * P)
+    by (rewrite minus_IZR; ring).
+  apply pdiff_period; exact HP.
+Qed.
+Lemma pv_history_dist2 (s : pvar (T:=R)) h x1 x2 (n m : Z) :
+  let s' := pv_in_force s h in
+  0 < pv_P s' ->
+  snd (pv_run Rops s (h ++ [PvDist2 (x1 + IZR n * pv_P s') (x2 + IZR m * pv_P s')])) =
+  snd (pv_run Rops s (h ++ [PvDist2 x1 x2])).
+Proof.
+  intros s' HP. rewrite !pv_run_app. cbn [snd]. rewrite pv_run_state. fold s'.
+  cbn [pv_run pv_step snd]. unfold per_dist2, per_grad.
+  pose proof (pdiff_shift2 (pv_P s') x1 x2 n m HP) as E. cbn [nadd nsub nmul Rops] in E |- *.
+  rewrite E. reflexivity.
+Qed.
